@@ -91,7 +91,7 @@ func vh_C17_L5_round_robin_fair() {
 	if vtier() > 0 {
 		events = 9
 	}
-	nf := 1 + vPick(2) // every message has nf fragments: with interleaving the unit of service is the chunk, not the message
+	nf := 1 + vPick(2)               // every message has nf fragments: with interleaving the unit of service is the chunk, not the message
 	var pushedSeq, poppedSeq [ns]int // per-stream FIFO counters
 	var backlog [ns]int
 	var servedSince [ns]int // services since the stream became backlogged
@@ -349,5 +349,57 @@ func vh_C17_L1_framing_follows_latest_init() {
 		}
 	}
 	vassert(seen, "the message goes out")
+	vcover("end")
+}
+
+// C17.L2b: a forward-TSN of the wrong kind is answered with a protocol-violation ABORT in
+// every negotiated state: plain FORWARD-TSN with interleaving on (whether or not the peer
+// also announced I-FORWARD-TSN), I-FORWARD-TSN with interleaving off.
+func vh_C17_L2_wrong_kind_forward_tsn() {
+	il := vPick(2) == 1
+	a, _ := vNewAssocOpts(vAssocOpts{interleaving: il})
+	a.peerForwardTSN, a.peerIForwardTSN = nondetBool(), nondetBool()
+	vassert(a.updateInterleavingState() == nil, "mode set")
+	cum := a.peerLastTSN()
+	var c chunk
+	if il {
+		c = &chunkForwardTSN{newCumulativeTSN: cum + 1}
+	} else {
+		c = &chunkIForwardTSN{newCumulativeTSN: cum + 1}
+	}
+	vassert(vDeliver(a, c) == nil, "a wrong-kind forward-TSN is not fatal to the read loop")
+	vassert(a.willSendAbort, "a forward-TSN of the kind that was not negotiated requests an ABORT")
+	_, isPV := a.willSendAbortCause.(*errorCauseProtocolViolation)
+	vassert(isPV, "the ABORT carries a protocol-violation cause")
+	vassert(a.peerLastTSN() == cum, "and the cumulative point does not move")
+	vcover("end")
+}
+
+// C17.L1c: the application's choice reaches the negotiation whatever the order of the
+// options: interleaving disabled by option stays disabled when a plain Config follows or
+// precedes it, on the client and on the server side (and enabled stays enabled).
+func vh_C17_L1_interleaving_option_order() {
+	want := vPick(2) == 1
+	conn := &vConn{}
+	base := Config{NetConn: conn, LoggerFactory: vLoggerFactory{}, Name: "v"}
+	var cfg *Config
+	var err error
+	switch vPick(4) {
+	case 0:
+		cfg, err = buildServerConfig(WithEnableInterleaving(want), base)
+	case 1:
+		cfg, err = buildServerConfig(base, WithEnableInterleaving(want))
+	case 2:
+		cfg, err = buildClientConfig(WithEnableInterleaving(want), base)
+	case 3:
+		cfg, err = buildClientConfig(base, WithEnableInterleaving(want))
+	}
+	vassert(err == nil && cfg != nil, "configuration accepted")
+	if cfg == nil {
+		return
+	}
+	vassert(cfg.enableInterleaving == want, "the interleaving option is honoured whatever else is passed before or after it")
+	a := createAssociationFromConfigWithTsn(cfg, nondetU32())
+	vassert(a.localInterleaving == want, "and reaches the association")
 	vcover("end")
 }
